@@ -31,9 +31,11 @@ Theorem C12_times_nonneg_and_monotone :
     last_le_now st' /\ times_nonneg st' /\ forall key l, btime (cmap st) key l <= btime (cmap st') key l.
 Proof. exact times_nonneg_and_monotone. Qed.
 
-(* REFUTED at the level of the report: registering a function again after it ran makes the
-   earlier data disappear (equal labels: the later code object overwrites the earlier one) *)
-Theorem C12_reregister_refuted :
-  rev (snaps (run rereg_codes 0 0 rereg_ops)) = [[(0, [(2, 1, 0); (3, 1, 0)])]; [(0, [])]]
+(* report level: registering a function again after it ran keeps its data - code objects sharing a
+   label are accumulated (this was a defect of the pinned tree, repaired by a "fix:" commit; the
+   witness history used to lose the first run's counts) *)
+Theorem C12_reregister_keeps_data :
+  rev (snaps (run rereg_codes 0 0 rereg_ops))
+  = [[(0, [(2, 1, 0); (3, 1, 0)])]; [(0, [(2, 1, 0); (3, 1, 0)])]; [(0, [(2, 2, 0); (3, 2, 0)])]]
   /\ pad_ok (run rereg_codes 0 0 rereg_ops) = true.
-Proof. exact rereg_loses_data. Qed.
+Proof. exact rereg_keeps_data. Qed.
